@@ -119,7 +119,8 @@ def main():
             builder.os.walk = walk
         args = ["-R", "-q", "-g", spec["out"]]
         if spec.get("laws_source_dir"):
-            args += ["-l", spec["laws_source_dir"]]
+            # a sub-package alone: the default exclusion ("core") does not exist below it, so no directory is excluded
+            args += ["-l", spec["laws_source_dir"], "-e"]
         os.makedirs(spec["out"], exist_ok=True)
         entry.main(args)
         report["counts"] = counts
